@@ -214,6 +214,19 @@ func verifHarnessC14() {
 	b, err = Open(ob)
 	verifAssert(err == nil, "C14.final-open-b")
 	vSameDump(a, b, kp, "C14.recovered")
+	if verifParam("afterclose") == 1 {
+		// calls that only consult the in-memory index keep answering alike on handles that were closed
+		verifAssert(a.Close() == b.Close(), "C14.final-close-result-differs")
+		ka, kb := a.ListKeys(), b.ListKeys()
+		verifAssert(len(ka) == len(kb), "C14.closed-listkeys-count-differs")
+		for i := range ka {
+			if i < len(kb) {
+				verifAssert(len(ka[i]) == len(kb[i]) && verifBytesEq(ka[i], kb[i]), "C14.closed-listkeys-differs")
+			}
+		}
+		verifAssert(a.Stat().KeyNum == b.Stat().KeyNum, "C14.closed-keynum-differs")
+		verifReach("closed-handles-compared")
+	}
 	verifReach("done")
 	if verifParam("witness") == 1 {
 		verifAssert(false, "witness")
